@@ -477,6 +477,12 @@ def nse(obs, sim, trans=transform.Identity(), excludenull=False):
         raise ValueError("Expected sim with dim equal " +
                          f"to {obs.shape[0]}, got {sim.shape[0]}.")
 
+    # A [n] series paired with a [n,1] column would be broadcast to [n,n]
+    if sim.ndim == 2 and sim.shape[1] == 1 and obs.ndim == 1:
+        sim = sim[:, 0]
+    elif obs.ndim == 2 and obs.shape[1] == 1 and sim.ndim == 1:
+        obs = obs[:, 0]
+
     # Transform
     tobs = trans.forward(obs)
     tsim = trans.forward(sim)
